@@ -1,10 +1,13 @@
 #!/bin/bash
 # usage: tools/run_seeded.sh <seed dir name, e.g. C04-m1> <property> [extra check args]
-# applies the seeded change to /repo, runs the check, and ALWAYS undoes it
+# Runs the check against a scratch copy of /repo with the seeded change applied
+# (VERIF_REPO points the prover, replayer and bounded tier at the copy), then removes the copy.
+# Equivalent to `git -C /repo apply ...; ./check ...; git -C /repo checkout -- .` but does not
+# disturb other processes that import /repo/src while it runs.
 SEED=$1; PID=$2; shift 2
-cd /repo && git status --short | grep -q . && { echo "/repo not clean"; exit 9; }
-git -C /repo apply /verif/seeded/$SEED/patch.diff || exit 9
-cd /verif && ./check $PID --tier quick "$@" 2>&1 | grep -E "^\[|VIOLATION|KNOWN|CHECKER|UNDEC|failed obligation" | head -${LINES_MAX:-14}
+SCR=$(mktemp -d /tmp/seedrun.XXXXXX)
+mkdir -p $SCR/repo && cp -r /repo/src /repo/tests $SCR/repo/ 2>/dev/null
+( cd $SCR/repo && git init -q . && git apply /verif/seeded/$SEED/patch.diff ) || { echo "patch failed"; rm -rf $SCR; exit 9; }
+cd /verif && VERIF_REPO=$SCR/repo ./check $PID --tier quick "$@" 2>&1 | grep -E "^\[|VIOLATION|KNOWN|CHECKER|UNDEC|failed obligation" | head -${LINES_MAX:-14}
 echo "exit=${PIPESTATUS[0]}"
-git -C /repo checkout -- . 
-git -C /repo status --short | head -3
+rm -rf $SCR
